@@ -23,12 +23,12 @@ SEL_OBJS = [1, 'a', 2.5, 'é']
 
 def type_table():
     return {
-        'Integer': ({}, [0, -1, 7, 2 ** 63, -10 ** 30, None]),
+        'Integer': ({}, [0, -1, 1, 7, 2 ** 63, -10 ** 30, None]),
         'Number': ({}, [0.0, -0.0, 1.5, 1e308, 5e-324, -1e-7, 3, 2 ** 70, 0.1 + 0.2, None]),
-        'String': ({}, ['', 'a', 'é☃\U0001F600', 'quo"te\\back\nnl\ttab\x00\x1f', '  ', 'null', None]),
+        'String': ({}, ['', 'a', '0', 'None', 'false', 'é☃\U0001F600', 'quo"te\\back\nnl\ttab\x00\x1f', '  ', 'null', None]),
         'Boolean': ({}, [True, False, None]),
-        'Tuple': ({'length': None}, [(1,), (1, 'a'), (1.5, None, True), ('x', 'y', 'z', 0), None]),
-        'NumericTuple': ({'length': None}, [(1, 2.5), (0,), (-0.0, 1e308, 3), None]),
+        'Tuple': ({'length': None}, [(1,), (1, 'a'), (1.5, None, True), ('x', 'y', 'z', 0), (), None]),
+        'NumericTuple': ({'length': None}, [(1, 2.5), (0,), (-0.0, 1e308, 3), (), None]),
         'XYCoordinates': ({}, [(0.0, 0.0), (1, 2.5), (-1e-7, 2 ** 60), None]),
         'Range': ({}, [(0, 1), (1.5, 2.5), (-1, -1), (0, 1e308), None]),
         'Date': ({}, [DT(2020, 1, 2, 3, 4, 5), DT(2020, 1, 2, 3, 4, 5, 123456), DT(2020, 1, 2), DT(1, 1, 1), DT(999, 12, 31, 23, 59, 59, 999999),
@@ -37,8 +37,8 @@ def type_table():
         'DateRange': ({}, [(DT(2020, 1, 1), DT(2020, 1, 2)), (DT(2020, 1, 1, 0, 0, 0, 1), DT(2020, 1, 1, 0, 0, 0, 2)), (D(2020, 1, 1), D(2020, 1, 2)),
                            (DT(999, 1, 1), DT(1000, 1, 1)), (D(1, 1, 1), D(9999, 12, 31)), (DT(2020, 1, 1, 10), DT(2020, 1, 1, 10)), None]),
         'CalendarDateRange': ({}, [(D(2020, 1, 1), D(2020, 1, 2)), (D(1, 1, 1), D(999, 12, 31)), (D(2020, 5, 5), D(2020, 5, 5)), None]),
-        'List': ({}, [[], [1], [1, 'a', None, True, 1.5], [[1, 2], {'k': 1}], ['é'], None]),
-        'Dict': ({}, [{}, {'a': 1}, {'a': [1, 2], 'b': {'c': None}}, {'é': 'é'}, None]),
+        'List': ({}, [[], [0], [''], [1], [1, 'a', None, True, 1.5], [[1, 2], {'k': 1}], ['é'], None]),
+        'Dict': ({}, [{}, {'': 0}, {'a': 1}, {'a': [1, 2], 'b': {'c': None}}, {'é': 'é'}, None]),
         'Selector': ({'objects': SEL_OBJS}, list(SEL_OBJS) + [None]),
         'SelectorDict': ({'objects': {'one': 1, 'a': 'a', 'f': 2.5, 'e': 'é'}}, list(SEL_OBJS) + [None]),
         'ListSelector': ({'objects': SEL_OBJS}, [[], [1], [1, 'a'], ['é', 2.5, 1, 'a'], None]),
